@@ -41,7 +41,7 @@ func (propC09) Level() string  { return "exploration" }
 func (propC09) NewParams() any { return &C09Params{} }
 func (propC09) Plan(tier string) (int, int) {
 	if tier == "thorough" {
-		return 8000000, 0
+		return 50000000, 0
 	}
 	return 300000, 0
 }
